@@ -129,6 +129,28 @@ def run(prog, rep):
     rw0 = adm_cls.methods.get('rewrite_delegations')
     if rw0 is None:
         raise AnalysisError('ABCADMPropertyGraph.rewrite_delegations vanished')
+    # a helper that writes, called as the element of a generator handed to any() / all(): evaluation stops at the first
+    # element that decides the result, and the helper is never called for the properties after it
+    from ..normalize import resolve_helper
+    lazy_ = []
+    for c_ in ast.walk(rw0):
+        if isinstance(c_, ast.Call) and isinstance(c_.func, ast.Name) and c_.func.id in ('any', 'all') and len(c_.args) == 1 and \
+                isinstance(c_.args[0], ast.GeneratorExp):
+            for h_ in ast.walk(c_.args[0].elt):
+                if isinstance(h_, ast.Call):
+                    rh_ = resolve_helper(prog, adm_cls, adm_cls.module, h_)
+                    if rh_ is not None and any(isinstance(a_, (ast.Assign, ast.AugAssign)) and
+                                               any(isinstance(t_, (ast.Subscript, ast.Attribute)) for t_ in (a_.targets if isinstance(a_, ast.Assign) else [a_.target]))
+                                               for a_ in ast.walk(rh_[0])):
+                        lazy_.append((c_, h_))
+    rep.instance('R2', f'rewrite_delegations: writing helpers evaluated lazily inside any()/all(): {len(lazy_)}')
+    for c_, h_ in lazy_:
+        rep.violation('R2', loc(adm_cls.module, c_), 'ABCADMPropertyGraph.rewrite_delegations', f'{call_name(h_)}() inside {c_.func.id}(<generator>)',
+                      f'`{c_.func.id}` stops at the first element that decides its result, so `{call_name(h_)}` - which re-keys and writes back '
+                      f'one delegation property - is not called for the properties after it: a node that carries both a label and a capacity '
+                      f'delegation keeps the aggregate model\'s key on the second one, and unmerge cannot find it')
+    if lazy_:
+        return
     rw = inline(prog, adm_cls, rw0)
     rcfg = CFG(rw)
     decs = [c for c in walk_no_nested(rw) if isinstance(c, ast.Call) and call_name(c) == 'from_json']
@@ -194,6 +216,18 @@ def run(prog, rep):
         for l in ast.walk(fn):
             if isinstance(l, ast.For) and any(isinstance(x, ast.Name) and x.id == name for x in ast.walk(l.target)):
                 it = l.iter
+                # a table of rows (written in place, or a class / module level constant): the column `name` is unpacked from
+                rows = it
+                if isinstance(it, ast.Name) and it.id in mod.assigns:
+                    rows = mod.assigns[it.id]
+                elif isinstance(it, ast.Attribute) and isinstance(it.value, ast.Name) and it.value.id in ('self', 'cls', cbm.simple):
+                    rows = cbm.find_assign(it.attr)[1] or it
+                if isinstance(rows, (ast.List, ast.Tuple)) and rows.elts and isinstance(l.target, ast.Tuple) and \
+                        all(isinstance(r_, (ast.List, ast.Tuple)) and len(r_.elts) == len(l.target.elts) for r_ in rows.elts):
+                    idx = [i for i, t_ in enumerate(l.target.elts) if isinstance(t_, ast.Name) and t_.id == name]
+                    if idx:
+                        out |= {fold_prop(r_.elts[idx[0]]) for r_ in rows.elts}
+                    continue
                 if isinstance(it, (ast.List, ast.Tuple)):
                     out |= {fold_prop(e) for e in it.elts}
                 else:
@@ -225,14 +259,21 @@ def run(prog, rep):
                     out |= prop_sources(fn, c.targets[0].slice.id)
         return out
     w = written_props([ma, und])
-    h = written_props([um])
-    for n in ast.walk(um):
+    um3 = inline(prog, cbm, um)      # what unmerge does may sit in private helpers
+    h = written_props([um3])
+    for n in ast.walk(um3):
         if isinstance(n, ast.Subscript):
             v = fold_prop(n.slice)
             if v:
                 h.add(v)
             elif isinstance(n.slice, ast.Name):
-                h |= prop_sources(um, n.slice.id)
+                h |= prop_sources(um3, n.slice.id)
+        if isinstance(n, ast.Call) and call_name(n) in ('unset_node_property', 'unset_nodes_property'):
+            pn_ = kwarg(n, 'prop_name')
+            if isinstance(pn_, ast.Name):
+                h |= prop_sources(um3, pn_.id)
+            elif pn_ is not None and fold_prop(pn_):
+                h.add(fold_prop(pn_))
     for p in sorted(w):
         rep.instance('R3', f'merge writes {p}; unmerge handles it: {p in h or p == "GraphID"}')
         if p != 'GraphID' and p not in h:
@@ -318,13 +359,25 @@ def run(prog, rep):
     check_flag_scope(rep, 'R5', mod, 'Neo4jCBMGraph._update_node_delegations', und,
                      'a label-only delegation that the merged model brings to a shared node is computed but never written back, '
                      'so the combined model depends on merge order')
-    # the value written is the non-None side
-    wtxt = ast.unparse(und)
-    if 'new_delegations = cbm_delegations if cbm_delegations is not None else adm_delegations' not in wtxt:
-        sel = [n for n in ast.walk(und) if isinstance(n, ast.IfExp)]
-        ok = any('is not None' in ast.unparse(n.test) for n in sel)
-        if not ok:
-            rep.violation('R5', loc(mod, und), 'Neo4jCBMGraph._update_node_delegations', 'written value', 'the non-empty side must be written')
+    # the value written is the non-None side: a selection `X if X is not None else Y` / `Y if X is None else X`
+    def picks_non_none(n):
+        t = n.test
+        if not (isinstance(t, ast.Compare) and len(t.ops) == 1 and isinstance(t.left, ast.Name) and
+                isinstance(t.comparators[0], ast.Constant) and t.comparators[0].value is None):
+            return False
+        x = t.left.id
+        if isinstance(t.ops[0], ast.IsNot):
+            return isinstance(n.body, ast.Name) and n.body.id == x and not (isinstance(n.orelse, ast.Name) and n.orelse.id == x)
+        if isinstance(t.ops[0], ast.Is):
+            return isinstance(n.orelse, ast.Name) and n.orelse.id == x and not (isinstance(n.body, ast.Name) and n.body.id == x)
+        return False
+    sel = [n for n in ast.walk(und) if isinstance(n, ast.IfExp) and not any(isinstance(x, ast.Call) and call_name(x) == 'from_json' for x in ast.walk(n))]
+    rep.instance('R5', f'_update_node_delegations: written value selected by {[norm(n, 80) for n in sel]}')
+    if True:
+        if True:
+            ok = any(picks_non_none(n) for n in sel)
+            if not ok:
+                rep.violation('R5', loc(mod, und), 'Neo4jCBMGraph._update_node_delegations', 'written value', 'the non-empty side must be written')
 
     # the per-property loop of the delegation update is never left early: the write-back of what it collected follows the loop
     from ..lints import loops_left_early, stale_whole_node_writes
@@ -384,9 +437,16 @@ def run(prog, rep):
     # ---- R6 ----
     utxt = ast.unparse(um)
     gid = [a.arg for a in um.args.kwonlyargs + um.args.args if a.arg != 'self'][0]
-    rm = [c for c in ast.walk(um) if isinstance(c, ast.Call) and call_name(c) == 'remove' and 'adm_graph_ids' in ast.unparse(c.func.value)]
+    umi = inline(prog, cbm, um)
+    uenv_ = local_env(umi)
+
+    def contrib_remove(c):
+        # <node's contributor list>.remove(..): the list named in place or through a local (also inside an inlined helper)
+        return isinstance(c, ast.Call) and call_name(c) == 'remove' and isinstance(c.func, ast.Attribute) and \
+            ('adm_graph_ids' in ast.unparse(c.func.value) or 'adm_graph_ids' in ctext(c.func.value, uenv_))
+    rm = [c for c in ast.walk(umi) if contrib_remove(c)]
     rep.instance('R6', f'unmerge: {norm(rm[0]) if rm else "?"}')
-    if not rm or ast.unparse(rm[0].args[0]) != gid:
+    if not rm or not rm[0].args or gid not in (ast.unparse(rm[0].args[0]), ctext(rm[0].args[0], uenv_)):
         rep.violation('R6', loc(mod, um), 'Neo4jCBMGraph.unmerge_adm', 'contributor not removed from the list', 'unmerge must remove the given model id from each node\'s contributor list')
     umi = inline(prog, cbm, um)
     for w_, pv_, o_ in stale_whole_node_writes(umi):
@@ -395,8 +455,7 @@ def run(prog, rep):
                       f'restores the old values (here: the contributor list that still names the unmerged model), so the node is never '
                       f'recognised as contributed by nobody and merge followed by unmerge does not restore the model')
     rep.instance('R6', f'unmerge: whole-node write-backs of stale dictionaries: {len(stale_whole_node_writes(umi))}')
-    uloops = [l for l in walk_no_nested(umi) if isinstance(l, ast.For) and any(isinstance(c, ast.Call) and call_name(c) == 'remove' and
-                                                                             'adm_graph_ids' in ast.unparse(c.func.value) for c in ast.walk(l))]
+    uloops = [l for l in walk_no_nested(umi) if isinstance(l, ast.For) and any(contrib_remove(c) for c in ast.walk(l))]
     if not uloops:
         raise AnalysisError('unmerge_adm: loop over the nodes of the combined model not found')
     ul = uloops[0]
@@ -442,9 +501,9 @@ def run(prog, rep):
     if not dn or not isinstance(dn[0]._parent._parent, ast.For) or ast.unparse(dn[0]._parent._parent.iter) not in del_lists or \
             not (dn[0].keywords and ast.unparse(dn[0].keywords[0].value) == ast.unparse(dn[0]._parent._parent.target)):
         rep.violation('R6', loc(mod, um), 'Neo4jCBMGraph.unmerge_adm', 'deletion loop', 'the collected nodes must be deleted')
-    rbid = [c for c in ast.walk(um) if isinstance(c, ast.Call) and call_name(c) == 'remove_by_id']
+    rbid = [c for c in ast.walk(umi) if isinstance(c, ast.Call) and call_name(c) == 'remove_by_id']
     rep.instance('R6', f'unmerge: {norm(rbid[0]) if rbid else "?"}')
-    if not rbid or ast.unparse(rbid[0].args[0]) != gid:
+    if not rbid or not rbid[0].args or gid not in (ast.unparse(rbid[0].args[0]), ctext(rbid[0].args[0], uenv_)):
         rep.violation('R6', loc(mod, um), 'Neo4jCBMGraph.unmerge_adm', 'delegations of the model not removed', 'delegations keyed by the unmerged model id must be removed')
     # what unmerge leaves behind when the last delegation of a node is gone must read back as "no delegations"
     dcls = prog.module('fim.slivers.delegations').classes['Delegations']
@@ -516,7 +575,20 @@ def run(prog, rep):
                               f'"no delegations" (None, empty text), the node still looks delegated to merge - merging the same or another model '
                               f'that delegates on this node then fails with "delegations from both CBM and ADM", i.e. unmerge is not the inverse of merge')
     # guard: only nodes to which the model contributed are touched
-    ing = [n for n in ast.walk(um) if isinstance(n, ast.If) and any(ctext(cj) in [f'{gid} in {i}' for i in ids_txt] for cj in conjuncts(canon(n.test)))]
+    def member_tests(n):
+        # the test itself, or (guard clause: `if id not in list: <leave>`) its negation; the list named in place or by a local
+        for cj in conjuncts(canon(n.test)):
+            yield ctext(cj)
+            yield ctext(cj, uenv_)
+        t_ = n.test
+        if isinstance(t_, ast.Compare) and len(t_.ops) == 1 and isinstance(t_.ops[0], ast.NotIn) and n.orelse:
+            pos = ast.Compare(left=t_.left, ops=[ast.In()], comparators=t_.comparators)
+            yield ctext(pos)
+            yield ctext(pos, uenv_)
+    # locals that merely name a node's contributor list (they are mutated by .remove, so copy propagation leaves them alone)
+    ids_alias = [a_.targets[0].id for a_ in ast.walk(umi) if isinstance(a_, ast.Assign) and len(a_.targets) == 1 and
+                 isinstance(a_.targets[0], ast.Name) and ast.unparse(a_.value) in ids_txt]
+    ing = [n for n in ast.walk(umi) if isinstance(n, ast.If) and any(t_ in [f'{gid} in {i}' for i in ids_txt + ids_alias] for t_ in member_tests(n))]
     if not ing:
         rep.violation('R6', loc(mod, um), 'Neo4jCBMGraph.unmerge_adm', 'membership guard', 'only nodes the model contributed to may be changed')
 
